@@ -1,7 +1,7 @@
 from core import Inst
 
 META = {
-    'functions': ['decl.c:addmember', 'decl.c:tagspec (closing ALIGNUP, enum branch)', 'type.c basic type table'],
+    'functions': ['decl.c:addmember', 'decl.c:tagspec', 'decl.c:structdecl', 'decl.c:declspecs', 'decl.c:declarator', 'attr.c:attr/gnuattr', 'expr.c:builtinfunc(offsetof)/sizeof', 'type.c basic type table'],
     'bounds': {},
     'stubs': ['error() ends the path and asserts the model also rejects', 'xmalloc never NULL'],
     'outside': ['aarch64/riscv64-specific bit-field alignment rules (addmember is target independent; only rules shared with SysV x86-64 are claimed)',
@@ -24,6 +24,83 @@ def layout_instances(tier, fam='layout', safety=False):
     return L
 
 
+FIXED_ABI = [
+    'struct T { long n; char tag; char data[]; };',
+    'union T { struct { int a; short b[]; } s; char raw[33]; };',
+    'struct T { char c; struct { short s; char d; } in; int i; };',
+    'struct T { char c; struct { long l; }; short s; };',
+    'struct T { char c; union { long l; char d; }; short s; };',
+    'struct T { int a : 3; int : 0; int b : 5; char c; };',
+    'struct T { char a; long b : 33; short c : 9; };',
+    'struct T { unsigned char lo : 5, hi : 5; };',
+    'struct T { alignas(16) char c; int i; };',
+    'struct T { char c; alignas(8) short s; char d; };',
+    'struct __attribute__((packed)) T { char c; int i; short s; long l; };',
+    'struct T { char a[3]; short b[2][3]; long c[1]; };',
+    'struct T { _Bool b : 1; char c; };',
+    'struct T { long long a : 40; int b : 20; char c; };',
+    'struct T { short a : 7; short b : 7; short c : 7; };',
+    'struct T { char c; double d; float f; };',
+    'union T { char c[5]; short s; };',
+    'struct T { int a; struct { char x; } e[3]; long b; };',
+]
+
+
+def abi_instances(tier, seed, fam='abi'):
+    """struct/union definitions through the real parser (decl.c:tagspec/structdecl/declspecs/addmember, attr.c) with static assertions on
+    sizeof/_Alignof/offsetof whose expected values come from the platform compiler (gcc) at generation time"""
+    import random, subprocess, tempfile, os, re
+    import parselib
+    rng = random.Random(seed)
+    scal = ['char', 'short', 'int', 'long', 'long long', 'float', 'double', 'unsigned char', 'unsigned', '_Bool', 'void *']
+    defs = list(FIXED_ABI)
+    n_random = 14 if tier == 'quick' else 60
+    for k in range(n_random):
+        mem = []
+        for j in range(rng.randint(2, 5)):
+            r = rng.random()
+            t = rng.choice(scal)
+            nm = 'm%d' % j
+            if r < 0.3 and t not in ('float', 'double', 'void *'):
+                bits = {'char': 8, 'unsigned char': 8, 'short': 16, 'int': 32, 'unsigned': 32, 'long': 64, 'long long': 64, '_Bool': 1}[t]
+                w = rng.choice([0, 1, 3, 7, bits - 1, bits]) if bits > 1 else 1
+                mem.append('%s %s : %d;' % (t, '' if w == 0 else nm, w))
+            elif r < 0.45:
+                mem.append('%s %s[%d];' % (t, nm, rng.randint(1, 4)))
+            elif r < 0.55:
+                mem.append('struct { %s x; %s y; } %s;' % (rng.choice(scal), rng.choice(scal), nm))
+            elif r < 0.62:
+                mem.append('alignas(%d) %s %s;' % (rng.choice([8, 16, 32]), t, nm))
+            else:
+                mem.append('%s %s;' % (t, nm))
+        kind = 'union' if rng.random() < 0.2 else 'struct'
+        defs.append('%s T { %s };' % (kind, ' '.join(mem)))
+    L = []
+    for n, d in enumerate(defs):
+        kind = 'union' if d.startswith('union') else 'struct'
+        names = [m for m in re.findall(r'\b(m\d+|n|tag|c|i|s|in|a|b|d|f|l|e|raw|lo|hi)\b(?=\s*(?:\[[^]]*\])*\s*;)', d)]
+        names = sorted(set(names))
+        # members that are not bit-fields, found by asking gcc whether offsetof compiles
+        src = '#include <stdio.h>\n#include <stddef.h>\n#include <stdalign.h>\n%s\nint main(void) { printf("%%zu %%zu\\n", sizeof(%s T), _Alignof(%s T)); return 0; }\n' % (d, kind, kind)
+        with tempfile.TemporaryDirectory() as td:
+            open(td + '/a.c', 'w').write(src)
+            if subprocess.run(['gcc', '-std=c2x', '-w', '-o', td + '/a', td + '/a.c'], capture_output=True).returncode:
+                continue
+            size, align = subprocess.run([td + '/a'], capture_output=True, text=True).stdout.split()
+            offs = []
+            for m in names:
+                src2 = '#include <stdio.h>\n#include <stddef.h>\n#include <stdalign.h>\n%s\nint main(void) { printf("%%zu\\n", offsetof(%s T, %s)); return 0; }\n' % (d, kind, m)
+                open(td + '/b.c', 'w').write(src2)
+                if subprocess.run(['gcc', '-std=c2x', '-w', '-o', td + '/b', td + '/b.c'], capture_output=True).returncode == 0:
+                    offs.append((m, subprocess.run([td + '/b'], capture_output=True, text=True).stdout.strip()))
+        asserts = 'static_assert(sizeof(%s T) == %s); static_assert(_Alignof(%s T) == %s);' % (kind, size, kind, align)
+        for m, o in offs:
+            asserts += ' static_assert(__builtin_offsetof(%s T, %s) == %s);' % (kind, m, o)
+        L.append(parselib.parse_inst('%s.%02d' % (fam, n), d + '\n' + asserts, False, fam, unwind=70, timeout=300))
+        L[-1].bound = {'definition': d, 'expected (gcc)': {'sizeof': size, 'alignof': align, 'offsets': dict(offs)}}
+    return L
+
+
 def instances(build, tier, seed):
     META['bounds']['layout'] = 'member sequences of length <= %d, struct/union/packed' % (3 if tier == 'quick' else 4)
-    return layout_instances(tier)
+    return layout_instances(tier) + abi_instances(tier, seed)
